@@ -1468,7 +1468,7 @@ func doStepAttestationFormat(_ context.Context, prov Provisioner, ch *Challenge,
 	switch pub := leaf.PublicKey.(type) {
 	case *ecdsa.PublicKey:
 		if pub.Curve != elliptic.P256() {
-			return nil, WrapDetailedError(ErrorBadAttestationStatementType, err, "unsupported elliptic curve %s", pub.Curve)
+			return nil, NewDetailedError(ErrorBadAttestationStatementType, "unsupported elliptic curve %s", pub.Curve)
 		}
 		sum := sha256.Sum256([]byte(keyAuth))
 		if !ecdsa.VerifyASN1(pub, sum[:], sig) {
@@ -1501,8 +1501,11 @@ func doStepAttestationFormat(_ context.Context, prov Provisioner, ch *Challenge,
 		}
 		var serialNumber int
 		rest, err := asn1.Unmarshal(ext.Value, &serialNumber)
-		if err != nil || len(rest) > 0 {
+		if err != nil {
 			return nil, WrapError(ErrorBadAttestationStatementType, err, "error parsing serial number")
+		}
+		if len(rest) > 0 {
+			return nil, NewError(ErrorBadAttestationStatementType, "error parsing serial number: trailing data")
 		}
 		data.SerialNumber = strconv.Itoa(serialNumber)
 		break
